@@ -11,7 +11,7 @@ VERIF = assemble.VERIF
 
 NATIVE = {
     "C01": ["e2e.list_model", "e2e.list_model_pages", "bitfield.ranges", "bitfield.open", "bitfield.from_data", "oplog.open_js_layout"],
-    "C02": ["e2e.crash_prefixes", "oplog.open_js_layout"],
+    "C02": ["e2e.crash_prefixes", "e2e.crash_read_only", "oplog.open_js_layout"],
     "C03": ["proofs.honest_replication"],
     "C04": ["proofs.arbitrary_proofs_refused", "proofs.altered_proofs_refused"],
     "C05": ["merkle.reference_tree"],
@@ -21,7 +21,7 @@ NATIVE = {
     "C09": ["proofs.requests_no_panic", "proofs.requests_exhaustive_small", "proofs.arbitrary_proofs_refused"],
     "C10": ["e2e.fault_injection"],
     "C11": ["codec.wire_reference"],
-    "C12": ["e2e.read_only_hygiene"],
+    "C12": ["e2e.read_only_hygiene", "e2e.crash_read_only"],
     "C13": ["e2e.events"],
 }
 
